@@ -31,7 +31,7 @@ type C07Case struct {
 	FracSeed uint64      `json:"frac_seed"` // 0: exact multiples
 }
 
-var c07Ops = []string{"boolop", "wrapper", "engine", "engineOC", "polytree", "polytreeOC", "inflate", "minkSum", "minkDiff",
+var c07Ops = []string{"boolop", "wrapper", "engine", "engineOC", "polytree", "polytreeOC", "engineScaleFn", "inflate", "minkSum", "minkDiff",
 	"rectclip", "rectclipSingle", "rectlines", "rectlinesSingle", "rectTies", "rectlinesTies", "trim", "badPrecision"}
 
 func drawC07(t *rapid.T) *C07Case {
@@ -213,6 +213,26 @@ func judgeC07(c *C07Case, cx *Ctx) (v *Violation) {
 			return violf("ClipperD(%d) open solution differs from Clipper64 on the quantised input: %s", p, d)
 		}
 		got, want = gc, wc
+	case "engineScaleFn":
+		// AddPathsWithScaleFunc / ExecuteWithScaleFunc with the library's own conversion functions
+		e := c2.NewClipperD(p)
+		e64 := c2.NewClipper64()
+		open := c.Closed // reuse the flag: open or closed subjects
+		e.AddPathsWithScaleFunc(subjD, c2.Subject, open, c2.ScalePathsDToPaths64)
+		e64.AddPaths(c.Subj, c2.Subject, open)
+		e.AddPathsWithScaleFunc(clipD, c2.Clip, false, c2.ScalePathsDToPaths64)
+		e64.AddPaths(c.Clip, c2.Clip, false)
+		gc, gopen := c2.PathsD{}, c2.PathsD{}
+		wc, wopen := Paths{}, Paths{}
+		ok1 := e.ExecuteWithScaleFunc(c.CT, c.FR, &gc, &gopen, c2.ScalePath64ToPathD)
+		ok2 := e64.ExecuteOC(c.CT, c.FR, &wc, &wopen)
+		if ok1 != ok2 {
+			return violf("ClipperD(%d).ExecuteWithScaleFunc returned %v, Clipper64 %v", p, ok1, ok2)
+		}
+		if d := sameScaled(gopen, wopen, scale); d != "" {
+			return violf("ClipperD(%d).ExecuteWithScaleFunc open solution differs from Clipper64 on the quantised input: %s", p, d)
+		}
+		got, want = gc, wc
 	case "polytree":
 		td := c2.BooleanOpPolyTreeD(c.CT, subjD, clipD, c.FR, pa...)
 		t64 := c2.BooleanOpPolyTree64(c.CT, c.Subj, c.Clip, c.FR)
@@ -279,12 +299,18 @@ func judgeC07(c *C07Case, cx *Ctx) (v *Violation) {
 		return nil
 	case "inflate":
 		opts := []c2.InflateOption{c2.WithArcTolerance(c.ArcTol)}
+		opts64 := []c2.InflateOption{c2.WithArcTolerance(scale * c.ArcTol)}
 		if c.Prec != 99 {
 			opts = append(opts, c2.WithPrecision(c.Prec))
 		}
+		// the miter limit is a ratio: it must reach the integer offsetter unscaled
+		ml := []float64{0, 1, 1.5, 3, 10}[c.FracSeed%5]
+		if ml != 0 {
+			opts, opts64 = append(opts, c2.WithMitterLimit(ml)), append(opts64, c2.WithMitterLimit(ml))
+		}
 		got = c2.InflatePathsD(subjD, c.Delta, c.Join, c.End, opts...)
-		want = c2.InflatePaths64(c.Subj, c.Delta*scale, c.Join, c.End, c2.WithArcTolerance(scale*c.ArcTol))
-		extra = fmt.Sprintf(" delta=%v arcTol=%v join=%s end=%s", c.Delta, c.ArcTol, joinName(c.Join), endName(c.End))
+		want = c2.InflatePaths64(c.Subj, c.Delta*scale, c.Join, c.End, opts64...)
+		extra = fmt.Sprintf(" delta=%v arcTol=%v miterLimit=%v(0=default) join=%s end=%s", c.Delta, c.ArcTol, ml, joinName(c.Join), endName(c.End))
 	case "minkSum", "minkDiff":
 		// (pattern x path parallelograms are united: 60 x 60 random points take minutes, which the
 		// framework's watchdog would report as a hang; 12 x 12 bounds the cost)
